@@ -118,4 +118,41 @@ theorem retained_iff_total : ∃ fuel r, trace w entries fuel = some r ∧
   obtain ⟨fuel, r, h⟩ := trace_terminates w entries
   exact ⟨fuel, r, h, fun m name => C11.retained_iff w entries fuel r h m name⟩
 
+/-! ## requests still pending for a module are merged, never dropped (`DG/Subset.lean`)
+
+While a module waits to be analysed, further requests for it are merged into the pending one
+(`PendingTraces::add`); a reference is only closed if every one of them is analysed in the end. -/
+section Pending
+open DG.Subset
+
+/-- the pending request after any sequence of merges covers everything each request covered -/
+theorem pending_merge_keeps_every_request : ∀ (ts : List Imp) (h : Option Imp) (p : List String),
+    (optCovers h p = true ∨ ∃ t ∈ ts, t.covers p = true) → optCovers (ts.foldl pendingAdd h) p = true
+  | [], h, p, hc => by
+    rcases hc with hc | ⟨t, ht, _⟩
+    · simpa using hc
+    · cases ht
+  | t0 :: ts, h, p, hc => by
+    simp only [List.foldl]
+    apply pending_merge_keeps_every_request ts
+    have hstep : ∀ q, (optCovers h q = true ∨ t0.covers q = true) → optCovers (pendingAdd h t0) q = true := by
+      intro q hq
+      cases h with
+      | none =>
+        rcases hq with hq | hq
+        · simp [optCovers] at hq
+        · simpa [pendingAdd, optCovers] using hq
+      | some cur => simpa [pendingAdd, optCovers] using Imp.add_keeps cur t0 q (by simpa [optCovers] using hq)
+    rcases hc with hc | ⟨t, ht, htc⟩
+    · left; exact hstep p (Or.inl hc)
+    · rcases List.mem_cons.mp ht with rfl | ht
+      · left; exact hstep p (Or.inr htc)
+      · right; exact ⟨t, ht, htc⟩
+
+/-- a `default` request waiting for a module survives a `*` request merged into it -/
+example : (pendingAdd (some (.subset onlyDefault)) .star).map (·.covers ["default"]) = some true := by
+  simp [pendingAdd, Imp.add, onlyDefault, Sub.add, Sub.set, Sub.get?, Imp.covers]
+
+end Pending
+
 end DG.C09
